@@ -19,6 +19,12 @@ shared builders ignore:
   repeated, the same one cell short, and regional ones; latitudes pole to pole or regional.  Index
   conversion must not depend on where on Earth the grid is.
 
+* **the history of the convention object** (every convention): `'c01_history': [op, …]`, ordinary read-only
+  questions put to the bound object *before* the index questions (the grid kind of every variable incl. the
+  ones on no grid, depth / time coordinates, geometry, ravel / wind of the variables, selections, a clip
+  mask, refused index questions, …), see `HISTORY_OPS`; `with_layers` adds a depth and a time coordinate for
+  them to look at.  The ground truth does not change: what was asked before may not change an index space.
+
 `build(recipe)` / `bind(built)` fall back to `datasets.build` / `datasets.bind` for a recipe without the key,
 so a check can use them for every recipe and every replay is exact.
 """
@@ -158,6 +164,15 @@ def build(recipe: dict) -> G.Built:
 
 
 def bind(built: G.Built):
+    """the convention object of the recipe, obtained the way the recipe says and - when the recipe carries a
+    `'c01_history'` - after that history of questions has been put to this very object"""
+    conv = _bind_fresh(built)
+    if built.recipe.get('c01_history'):
+        built.extra['c01_history_raised'] = apply_history(conv, built, built.recipe['c01_history'])
+    return conv
+
+
+def _bind_fresh(built: G.Built):
     info = built.recipe.get('c01')
     if not info:
         return G.bind(built)
@@ -172,3 +187,155 @@ def bind(built: G.Built):
         conv = cls(built.ds)
     conv.bind()
     return conv
+
+
+# --------------------------------------------------------------------------
+# the history of one convention object
+#
+# `dataset.ems` / a bound convention is ONE long-lived object per dataset, and most of what it knows is cached on it
+# (`cached_property`).  The property quantifies over datasets and grids, not over "freshly made convention
+# objects": the index spaces must be the same whatever was asked of the object before.  A recipe may therefore
+# carry `'c01_history': [op, ...]`, a sequence of ordinary read-only questions (several of them end in an error
+# that is part of their documented contract: a variable on no grid has no grid kind, a dataset may have no time
+# coordinate) that `bind` puts to the object before handing it out.  None of them may change a single answer.
+
+# every op gets `q`, which asks one question and swallows (and notes) whatever it raises: a question that ends in
+# an error is part of a history like any other, and must not keep the following ones from being asked
+
+def _h_grid_kind(c, built, q):
+    # the grid kind of every variable of the dataset; the ones on no grid raise ValueError, as documented
+    for name in list(c.dataset.variables):
+        q(lambda: c.get_grid_kind(c.dataset[name]), expected=ValueError)
+
+
+def _h_grid_kind_and_size(c, built, q):
+    for name in list(c.dataset.data_vars):
+        q(lambda: c.get_grid_kind_and_size(c.dataset[name]), expected=ValueError)
+
+
+def _h_depth(c, built, q):
+    q(lambda: c.depth_coordinates)
+    q(lambda: c.get_all_depth_names())
+    for name in list(c.dataset.data_vars):
+        q(lambda: c.get_depth_coordinate_for_data_array(c.dataset[name]), expected=(ValueError, LookupError))
+    q(lambda: c.depth_coordinate)
+
+
+def _h_time(c, built, q):
+    q(lambda: c.time_coordinate)       # NoSuchCoordinateError when there is none
+
+
+def _h_geometry(c, built, q):
+    for attr in ('polygons', 'face_centres', 'mask', 'bounds', 'geometry', 'strtree'):
+        q(lambda: getattr(c, attr))
+
+
+def _h_names(c, built, q):
+    q(lambda: c.get_all_geometry_names())
+    q(lambda: c.drop_geometry())
+
+
+def _h_ravel(c, built, q):
+    # every data variable made linear and wound back; the ones on no grid raise ValueError
+    def there_and_back(da):
+        flat = c.ravel(da)
+        c.wind(flat, grid_kind=c.get_grid_kind(da))
+    for name in list(c.dataset.data_vars):
+        q(lambda: there_and_back(c.dataset[name]), expected=ValueError)
+
+
+def _h_select(c, built, q):
+    q(lambda: c.selector_for_index(c.wind_index(0)))
+    q(lambda: c.select_index(c.wind_index(0)))
+    q(lambda: c.select_variables(list(built.vars)[:1]))
+
+
+def _h_floor(c, built, q):
+    q(lambda: c.normalize_depth_variables())
+    q(lambda: c.ocean_floor())
+
+
+def _h_topology(c, built, q):
+    for attr in ('face_node_array', 'edge_node_array', 'edge_face_array', 'face_edge_array', 'face_face_array',
+                 'latitude', 'longitude', 'latitude_bounds', 'longitude_bounds', 'shape'):
+        q(lambda: getattr(c.topology, attr), expected=AttributeError)
+
+
+def _h_bad_index(c, built, q):
+    # index questions that are refused: their refusal must leave nothing behind either
+    for call in (lambda: c.wind_index(-1), lambda: c.wind_index(10 ** 6), lambda: c.wind_index(0, grid_kind='nope'),
+                 lambda: c.ravel_index(()), lambda: c.ravel_index(('nope', 0, 0))):
+        q(call, expected=Exception)
+
+
+def _h_hash(c, built, q):
+    import hashlib
+    q(lambda: c.hash_geometry(hashlib.sha1()))
+
+
+def _h_clip_mask(c, built, q):
+    from shapely.geometry import box
+
+    def clip():
+        x0, y0, x1, y1 = c.bounds
+        c.make_clip_mask(box(x0, y0, (x0 + x1) / 2, (y0 + y1) / 2), buffer=1)
+    q(clip)
+
+
+HISTORY_OPS = {
+    'grid_kind': _h_grid_kind, 'depth': _h_depth, 'geometry': _h_geometry, 'ravel': _h_ravel,
+    'time': _h_time, 'names': _h_names, 'select': _h_select, 'grid_kind_and_size': _h_grid_kind_and_size,
+    'floor': _h_floor, 'topology': _h_topology, 'bad_index': _h_bad_index, 'hash': _h_hash,
+    'clip_mask': _h_clip_mask,
+}
+HISTORY_NAMES = list(HISTORY_OPS)
+HISTORY_LENGTHS = [1, 2, 0, 3]
+
+
+def random_history(rng: random.Random, u: int) -> list:
+    """the history of the u-th dataset of a convention: its length walks 1, 2, 0, 3 (a fresh object stays covered),
+    its first question walks `HISTORY_NAMES` (13 and 4 are coprime), the rest is drawn; a question may repeat"""
+    n = HISTORY_LENGTHS[u % len(HISTORY_LENGTHS)]
+    if n == 0:
+        return []
+    return [HISTORY_NAMES[u % len(HISTORY_NAMES)]] + [rng.choice(HISTORY_NAMES) for _ in range(n - 1)]
+
+
+SHOC_LAYER_NAMES = {'shoc_simple': ('zc', 'time'), 'shoc_standard': ('z_centre', 't')}
+
+
+def with_layers(rng: random.Random, recipe: dict) -> dict:
+    """a depth coordinate and a time coordinate (on the `k` / `time` dimensions the tagged variables already use),
+    so that the questions about depths and times have something to look at; needs `attach_vars` to have run"""
+    recipe = dict(recipe)
+    zname = rng.choice(['zc', 'k'])          # an ordinary variable, or the dimension coordinate itself
+    tname = rng.choice(['t', 'time'])
+    if recipe['conv'] in SHOC_LAYER_NAMES:   # (the SHOC conventions know their depth / time coordinates by name)
+        zname, tname = SHOC_LAYER_NAMES[recipe['conv']]
+    recipe['vars'] = list(recipe['vars']) + [
+        {'name': zname, 'kind': None, 'extra': ['k'], 'base': 9000000, 'dtype': 'f8',
+         'attrs': {'standard_name': 'depth', 'positive': rng.choice(['down', 'up']), 'axis': 'Z'}},
+        {'name': tname, 'kind': None, 'extra': ['time'], 'base': 0, 'dtype': 'M8',
+         'attrs': {'standard_name': 'time'}},
+    ]
+    return recipe
+
+
+def apply_history(conv, built: G.Built, ops: list) -> list:
+    """put the questions to the object; whatever they answer or raise is not C01's business (other properties
+    look at it) - returns the (op, exception name) pairs of the ones that raised something other than the error
+    their contract announces, for the input distribution"""
+    import warnings
+    raised = []
+    for op in ops:
+        def q(fn, expected=(), op=op):
+            try:
+                with warnings.catch_warnings():
+                    warnings.simplefilter('ignore')
+                    fn()
+            except expected:
+                pass
+            except Exception as e:  # noqa: BLE001
+                raised.append((op, type(e).__name__))
+        q(lambda: HISTORY_OPS[op](conv, built, q))
+    return raised
